@@ -23,7 +23,8 @@ pub enum Shape {
 pub fn sized(c: usize, shape: &Shape) -> Prog {
     let shape = shape.clone();
     Prog::new(move |comp| {
-        let user = c - 4;
+        let init = crate::rows::init_rows();
+        let user = c - init;
         let z = Composer::ZERO;
         let pi_rows: Vec<usize> = match &shape {
             Shape::Pi(rows) => rows.iter().map(|r| if *r < 0 { (c as isize + *r) as usize } else { *r as usize }).collect(),
@@ -32,7 +33,7 @@ pub fn sized(c: usize, shape: &Shape) -> Prog {
         let custom_last = matches!(shape, Shape::CustomLast(_));
         let mut w_prev = comp.append_witness(fe(17));
         for i in 0..user {
-            let row = 4 + i;
+            let row = init + i;
             if custom_last && row == c - 1 {
                 if let Shape::CustomLast(f) = &shape {
                     // all-zero wires satisfy every custom family with zero next-row wires
